@@ -19,7 +19,40 @@ const STUB: [&str; 4] = [
 ];
 
 pub fn all() -> Vec<Property> {
-    vec![c01(), c02(), c07(), c08(), c09(), c10(), c11(), c12(), c13(), c17()]
+    vec![c01(), c02(), c06(), c07(), c08(), c09(), c10(), c11(), c12(), c13(), c17()]
+}
+
+fn c06() -> Property {
+    Property {
+        id: "C06",
+        level: "exploration",
+        variants: vec![
+            Variant {
+                name: "transport-pair",
+                weight: 4,
+                make: || Box::pin(scen::c06::run()),
+                max_steps: 3_000_000,
+                note: "two real Transports joined by the simulated stream",
+            },
+            Variant {
+                name: "pair-traffic-size-model",
+                weight: 1,
+                make: || Box::pin(scen::c01::run_sizes()),
+                max_steps: 3_000_000,
+                note: "the C01 pair workload judged by the frame-size and decodability models only",
+            },
+        ],
+        quick_runs: 20_000,
+        thorough_runs: 2_000_000,
+        rule: "one run = a max-frame-size from {512,513,520,600,1024,4096,65536}, 2-11 frames covering every performative kind with seeded field subsets (strings up to the 8/32-bit width boundary, extreme numeric values), transfers with delivery-tags of 0..32 bytes, both values of the more flag and payloads of 0 bytes, below one frame, and within +-80 bytes of 1-4 frame body sizes, written through a stream with seeded write capacity, chunked delivery and short reads; plus (1 run in 5) the end-to-end pair workload judged by the size model; every run is non-trivial; distinct = distinct event-log hash",
+        assumptions: vec![
+            "non-transfer performatives are generated small enough to fit a 512-byte frame: a performative larger than the peer's max-frame-size cannot be sent by any conforming behaviour",
+            "the expected performative value is obtained by decoding the crate's own encoding with the independent codec: C06 judges framing and splitting, the codec properties judge the encoding itself",
+        ],
+        real_components: REAL.to_vec(),
+        stub_components: STUB.to_vec(),
+        expected_probes: vec!["multi-frame-transfer", "net-short-read", "net-short-write", "net-fragmented-delivery"],
+    }
 }
 
 fn c17() -> Property {
